@@ -16,6 +16,7 @@
 -/
 import ICal.Lemmas.Zoned
 import ICal.Lemmas.Civil
+import ICal.Lemmas.BodiesDDDListsCodec
 namespace ICal.C11
 open ICal ICal.Zoned ICal.Codec
 
@@ -596,5 +597,23 @@ example : endIn Z3.berlin (.dur 7200) ∧ endIn Z3.berlin (.dt ⟨w11, some .ber
 -- a list of dates gets VALUE=DATE, a mixed list no VALUE
 example : (listLine demo [.val (.date ⟨2020, 1, 1⟩), .val (.date ⟨2020, 1, 2⟩)]).params = ⟨some sDATE, none⟩ ∧
     (listLine demo [.val (.date ⟨2020, 1, 1⟩), dtItem ⟨w10, none⟩]).params = ⟨none, none⟩ := by decide
+
+/-! ### the regenerated bodies of `vDDDLists.from_ical` / `to_ical` (tools/py2lean.py wave 8) are the models
+
+  `Bodies.dddListsFromP lu` is the regenerated `vDDDLists.from_ical(t)` (no zone given) with the pieces of
+  Model/DDDPieces.lean - the same definition the driver runs against icalendar; `lu` is `tzp.localize_utc`.
+  `listFromZ P tz t` is by definition `mapE (dddFromZ P tz) (splitOnChar ',' t)`: the list structure is the same,
+  and the element decoder without a zone is `dddFrom` (C03 `body_vDDDTypes_from_ical`). -/
+
+/-- regenerated `vDDDLists.from_ical`: split at every comma, every part through the (regenerated) dispatcher, the first
+    failure ends it - the model's `mapE` over `splitOnChar ','` -/
+theorem body_vDDDLists_from_ical (lu : PyRT.PyDateTime → PyRT.PyDateTime) (t : Str) :
+    Bodies.dddListsFromP lu t = Bodies.liftRes (List.map (Bodies.dddPy lu)) (mapE dddFrom (splitOnChar ',' t)) :=
+  Bodies.ddl_from_eq lu t
+
+/-- regenerated `vDDDLists.to_ical`: on elements whose own `to_ical()` is `itemText P`, the model's `listText P` -/
+theorem body_vDDDLists_to_ical {Z : Type} (P : Provider Z) (items : List (Item Z)) :
+    Bodies.dddListsToP (fun it => .ok (itemText P it)) items = .ok (listText P items) :=
+  Bodies.ddl_to_eq (itemText P) items
 
 end ICal.C11
